@@ -657,6 +657,119 @@ theorem budget_utf32toUtf8 (cs : List Char) (h : NoNul cs) (junk : List Int) (n 
       have : (n - 1).toNat = k := by omega
       simp [contB, hz, Std.utf8, this]
 
+/-! ## extension round: U+0000, `wlength()`, `equalsNocase` as an equivalence -/
+
+theorem countFrom_std_junk (cs : List Char) (h : NoNul cs) (junk : List UInt8) :
+    countFrom (Std.utf8 cs ++ 0 :: junk) = some cs.length := by
+  induction cs with
+  | nil => rw [show Std.utf8 [] = [] from rfl, List.nil_append]; unfold countFrom; simp
+  | cons ch t ih =>
+    have ht : NoNul t := fun c hc => h c (by simp [hc])
+    simp only [Std.utf8, List.flatMap_cons, List.append_assoc] at *
+    rw [count_enc _ (enc_char ch (h ch (by simp))), ih ht]
+    simp
+
+theorem enumAll_std_junk (cs : List Char) (h : NoNul cs) (junk : List UInt8) :
+    enumAll (Std.utf8 cs ++ 0 :: junk) = some (cs.map fun c => (c.toNat, c.utf8Size)) := by
+  induction cs with
+  | nil => rw [show Std.utf8 [] = [] from rfl, List.nil_append]; unfold enumAll; simp
+  | cons ch t ih =>
+    have ht : NoNul t := fun c hc => h c (by simp [hc])
+    have he := enc_char ch (h ch (by simp))
+    simp only [Std.utf8, List.flatMap_cons, List.append_assoc] at *
+    rw [enum_enc _ he, ih ht]
+    simp [String.length_utf8EncodeChar]
+
+/-- U+0000, the one scalar value `NoNul` excludes: every converter treats it as the terminator. -/
+theorem nul_truncates (cs : List Char) (h : NoNul cs) (rest : List Int) (tail : List UInt8) :
+    fromCodes ((Std.codes cs).map Int.ofNat ++ 0 :: rest) = some (Std.utf8 cs) ∧
+    count (Std.utf8 cs ++ 0 :: tail) = some cs.length ∧
+    chars (Std.utf8 cs ++ 0 :: tail) = some (Std.codes cs) ∧
+    iter (Std.utf8 cs ++ 0 :: tail) = some (cs.map fun c => (c.toNat, c.utf8Size)) ∧
+    dataw (Std.utf8 cs ++ 0 :: tail) = some (Std.utf16 cs) := by
+  have hl := utf8_length_ge cs h
+  refine ⟨?_, ?_, ?_, ?_, ?_⟩
+  · unfold fromCodes
+    rw [List.append_assoc]
+    apply utf32toUtf8_std cs h
+    right; simp only [Std.codes, List.length_append, List.length_map, List.length_cons]; omega
+  · unfold count mem
+    rw [List.append_assoc]
+    exact countFrom_std_junk cs h _
+  · unfold chars mem
+    rw [List.append_assoc]
+    apply utf8toUtf32_std cs h
+    right; simp only [List.length_append, List.length_cons]; omega
+  · unfold iter mem
+    rw [List.append_assoc]
+    exact enumAll_std_junk cs h _
+  · unfold dataw mem
+    rw [List.append_assoc]
+    apply utf8toUtf16_std cs h
+    simp only [List.length_append, List.length_cons]; omega
+
+example : fromCodes [0x41, 0, 0x42] = some [0x41] := by decide +kernel
+example : chars [0xC3, 0xA9, 0, 0x42] = some [233] := by decide +kernel
+
+theorem wcs_len_le (o : List Nat) : (wcs o).length ≤ o.length := by
+  unfold wcs
+  induction o with
+  | nil => simp
+  | cons a t ih => simp only [List.takeWhile_cons]; split <;> simp <;> omega
+
+/-- `wlength()` on valid text is the number of UTF-16 code units -/
+theorem wlength_std (cs : List Char) (h : NoNul cs) :
+    wlength (Std.utf8 cs) = some (Std.utf16 cs).length := by
+  unfold wlength
+  rw [utf8_utf16_std cs h]
+  simp only [Option.map_some, wcs]
+  rw [takeWhile_ne_zero_nat _ (utf16_ne_zero cs h)]
+
+/-- `wlength()` on every byte string: inside the buffers, and never more units than bytes -/
+theorem wlength_safe (s : List UInt8) : ∃ n, wlength s = some n ∧ n ≤ s.length := by
+  obtain ⟨_, _, _, ⟨w, hw, _⟩⟩ := utf_safe_string s
+  have hm := hasNul_mem s
+  obtain ⟨_, ⟨o2, h2, l2⟩, _, _⟩ := utf_safe_readers (mem s) s.length hm
+  have hl := strlen_mem s
+  refine ⟨(wcs o2).length, ?_, ?_⟩
+  · unfold wlength dataw; rw [h2]; rfl
+  · have : (wcs o2).length ≤ o2.length := by
+      exact wcs_len_le o2
+    omega
+
+example : wlength [0xF0, 0x9F, 0x98, 0x80, 0x41] = some 3 := by decide +kernel
+
+/-- `equalsNocase` is an equivalence relation on ALL byte strings (well-formed or not) -/
+theorem nocase_equivalence (s t u : List UInt8) :
+    equalsNocase s s = some true ∧
+    equalsNocase s t = equalsNocase t s ∧
+    (equalsNocase s t = some true → equalsNocase t u = some true → equalsNocase s u = some true) := by
+  obtain ⟨e1, a1, b1, he1, ha1, hb1, i1⟩ := nocase_iff_lower_eq s s
+  obtain ⟨e2, a2, b2, he2, ha2, hb2, i2⟩ := nocase_iff_lower_eq s t
+  obtain ⟨e3, a3, b3, he3, ha3, hb3, i3⟩ := nocase_iff_lower_eq t s
+  obtain ⟨e4, a4, b4, he4, ha4, hb4, i4⟩ := nocase_iff_lower_eq t u
+  obtain ⟨e5, a5, b5, he5, ha5, hb5, i5⟩ := nocase_iff_lower_eq s u
+  have x1 : a1 = b1 := by rw [ha1] at hb1; exact Option.some.inj hb1
+  have x2 : a2 = b3 := by rw [ha2] at hb3; exact Option.some.inj hb3
+  have x3 : b2 = a3 := by rw [hb2] at ha3; exact Option.some.inj ha3
+  have x4 : a4 = b2 := by rw [ha4] at hb2; exact Option.some.inj hb2
+  have x5 : a5 = a2 := by rw [ha5] at ha2; exact Option.some.inj ha2
+  have x6 : b5 = b4 := by rw [hb5] at hb4; exact Option.some.inj hb4
+  refine ⟨?_, ?_, ?_⟩
+  · rw [he1]; congr 1; exact i1.mpr x1
+  · rw [he2, he3]; congr 1
+    cases e2 <;> cases e3 <;> simp_all
+  · intro p q
+    rw [he2] at p; rw [he4] at q; rw [he5]
+    have p' : e2 = true := Option.some.inj p
+    have q' : e4 = true := Option.some.inj q
+    congr 1
+    apply i5.mpr
+    rw [x5, x6, i2.mp p', ← x4, i4.mp q']
+
+example : equalsNocase [0xC3, 0x89] [0xC3, 0xA9] = some true ∧ equalsNocase [0xC3, 0xA9] [0xC3, 0x89] = some true := by
+  decide +kernel
+
 /-! ## the repaired defect, kept as a witness
 
 Before commit 4ac590f `count()` skipped the byte after a 2-byte lead without reading it: on a string that
